@@ -120,6 +120,14 @@ def cases(tier, seed, args):
             if sc['wca'] not in [(-1,), -1, [-1]]:
                 sc['wca'], sc['wca_type'] = (-1,), 'tuple'
             out.append(dict(t='model', **sc))
+        # single precision throughout (observations, start, model) with an all-zero frame; one M-step, then predict
+        for i in range(6 if q else 36):
+            kind = ['cacgmm', 'gcacgmm', 'vmfcacgmm', 'cacgmm', 'cwmm', 'cacgmm'][i % 6]
+            sc = scenario(rng, kind, tier)
+            sc.update(regime='degenerate', init='soft', dtype='float32', init_single=True, K=2, iterations=1 + (i // 6) % 2, sam=False,
+                      aligner=False, saliency=False)
+            sc.pop('wca_pos', None)
+            out.append(dict(t='model', **sc))
         # clipping constants that are visible at Flt resolution on confident (separable) posteriors: the E-steps clip, the
         # final predict / fit_predict posterior never does
         for i in range(7 if q else 42):
@@ -164,6 +172,19 @@ def cases(tier, seed, args):
                 sc['N'] = max(2, sc['D'] - 1)         # fewer frames than channels
                 sc['K'] = 2
             out.append(dict(t='domain', **sc))
+        # initial affiliation with a singleton independent axis (broadcast over the bins), one M-step
+        for i in range(4 if q else 24):
+            sc = scenario(rng, 'cacgmm', tier)
+            sc.update(regime='regular', init=['soft', 'hard'][i % 2], dtype='float64', K=2 + i % 2, D=3, N=int(rng.integers(8, 14)), iterations=1 + (i // 2) % 2,
+                      saliency=False, L=[int(rng.integers(2, 4))], sam=False, aligner=False, lead_singleton=True)
+            sc.pop('wca_pos', None)
+            sc['wca'], sc['wca_type'] = [(-1,), (-3,)][(i // 2) % 2], 'tuple'
+            out.append(dict(t='domain', **sc))
+        # stand-alone cACG trainer: every normalisation, non-default floors, fewer frames than channels / collinear frames
+        for i in range(9 if q else 54):
+            out.append(dict(t='domain_single', D=3 + i % 2, N=[2, 6, 3][i % 3], L=[[], [2]][(i // 3) % 2], seed=int(rng.integers(1 << 30)),
+                            norm=['eigenvalue', 'trace', 'none'][i % 3], floor=[1e-10, 1e-3, 0.1][(i // 3) % 3], iterations=1 + i % 3,
+                            dup=bool(i % 3 == 1)))
         # exactly zero variances: a class owning a single frame (hard start, one M-step), constant coordinates
         for i in range(6 if q else 36):
             sc = scenario(rng, 'gmm', tier)
@@ -290,10 +311,12 @@ def model_case(case, want=('predict', 'fit_predict', 'estep')):
     rng = np.random.default_rng(case['seed'])
     kind, L, K, D, N = case['kind'], case['L'], case['K'], case['D'], case['N']
     data = ml.make_data(rng, kind, L, K, D, N, regime=case['regime'], E=case.get('E'), dtype=case['dtype'])
-    init = ml.make_init(rng, L, K, N, style=case['init'])
+    init = ml.make_init(rng, L, K, N, style=case['init'], lead_singleton=bool(case.get('lead_singleton')))
     if case.get('tiny_class'):
         init[..., 0, :] = case['tiny_class']
         init = init / init.sum(-2, keepdims=True)
+    if case['dtype'] == 'float32' and case.get('init_single'):
+        init = init.astype(np.float32)          # a single-precision start keeps the whole model in single precision
     opts = dict(case['opts'])
     wca = case['wca']
     opts['weight_constant_axis'] = wca_arg(case)
@@ -367,6 +390,8 @@ def run_case(case):
         return model_case(case)[0]
     if t == 'domain':
         return domain_case(case)
+    if t == 'domain_single':
+        return domain_single(case)
     if t == 'inlinepa':
         K, T, F = case['K'], case['T'], case['F']
         ms = np.array(case['ms']).reshape(K, T)
@@ -414,6 +439,28 @@ def raw_fields(kind, model):
                 L = np.full_like(g.covariance, np.nan)
             f.append(ml._field('gaussian_cholesky', L))
     return f
+
+
+def domain_single(case):
+    """parameter domain of the stand-alone cACG trainer (rank-deficient data, non-default floors and normalisations)"""
+    from pb_bss.distribution.complex_angular_central_gaussian import ComplexAngularCentralGaussianTrainer
+    rng = np.random.default_rng(case['seed'])
+    D, N, L = case['D'], case['N'], case['L']
+    y = rng.normal(size=(*L, N, D)) + 1j * rng.normal(size=(*L, N, D))
+    if case.get('dup'):
+        y[..., 1:, :] = y[..., :1, :] * (1 + 1j)        # collinear frames
+    norm = {'eigenvalue': 'eigenvalue', 'trace': 'trace', 'none': False}[case['norm']]
+    m, exc = call(ComplexAngularCentralGaussianTrainer().fit, y, iterations=case['iterations'], covariance_norm=norm,
+                  eigenvalue_floor=case['floor'])
+    rec = dict(kind='domain', full=[*L, 1, N], wca=[-1], wca_int=False, integration=False, floor=enc.flt(case['floor']), norm=case['norm'],
+               kmin=enc.flt(1e-10), kmax=enc.flt(500.0), eps=enc.flt(0.0), degenerate=True, zero_resultant=False, exc=exc,
+               exc_explicit=exc in EXPLICIT, fields=[], rowsum=ml.flat(np.ones((*L, N))),
+               fp=f'trainer=cacg_single;norm={case["norm"]};floor={case["floor"]};N={N};D={D};call=fit;domain', key=f'doms:{case["seed"]}')
+    if m is not None:
+        rec['fields'] = [ml._field('weight', np.ones((*L, 1, 1))),
+                         ml._field('cacg_eigenvectors', m.covariance_eigenvectors[..., None, :, :], True),
+                         ml._field('cacg_eigenvalues', m.covariance_eigenvalues[..., None, :])]
+    return [rec]
 
 
 def domain_case(case):
